@@ -9,6 +9,8 @@ use pv::fl::Fl;
 use pv::refmodel::{max_abs_diff, V3};
 use pv::{json, Collector, Ctx, Mode, Tier, Value};
 
+mod customwp;
+
 fn to64<T: Fl>(v: [T; 3]) -> V3 {
     [v[0].to64(), v[1].to64(), v[2].to64()]
 }
@@ -661,6 +663,14 @@ fn replay(c: &mut Collector, rep: &Value) {
             }
             with_graph!(group.as_str(), float.as_str(), |g| go(&g, &path, &bits, c));
         }
+        "custom-white" => {
+            let ctx = Ctx { only: Some("custom-white".into()), ..Ctx::from_args("C02").0 };
+            let mut all = Collector::new();
+            customwp::run(&ctx, &mut all);
+            let want = rep["signature"].as_str().unwrap_or("").to_string();
+            all.viol.retain(|k, _| *k == want);
+            c.merge(all);
+        }
         "matrices" => {
             let ctx = Ctx::from_args("C02").0;
             check_matrices(&ctx, c);
@@ -706,6 +716,7 @@ fn real_main() -> i32 {
     let mut total = Collector::new();
     check_published(&ctx, &mut total);
     check_matrices(&ctx, &mut total);
+    customwp::run(&ctx, &mut total);
     let quick = ctx.tier == Tier::Quick;
     let (dense, grid) = if quick { (true, 9) } else { (true, 17) };
     run_dark(&ctx, &pga::d65_f32(), &mut total);
